@@ -44,7 +44,7 @@ def leaves(kind):
     R, I = ln.DataType.REAL, ln.DataType.INT
     if kind == "f":
         return [("a", ln.Symbol("a", R)), ("b", ln.Symbol("b", R)), ("2.5", ln.LiteralFloat(2.5)), ("-2.5", ln.LiteralFloat(-2.5)),
-                ("T[i]", ln.ArrayAccess(ln.Symbol("T", R), (ln.Symbol("i", I),))), ("3", ln.LiteralInt(3))]
+                ("T[i]", ln.ArrayAccess(ln.Symbol("T", R), (ln.Symbol("i", I),))), ("3", ln.LiteralInt(3)), ("7.0", ln.LiteralFloat(7.0))]
     if kind == "b":
         return [("a<b", ln.LT(ln.Symbol("a", R), ln.Symbol("b", R))), ("c>=a", ln.GE(ln.Symbol("c", R), ln.Symbol("a", R)))]
     if kind == "i":
@@ -112,6 +112,24 @@ def gen_trees(tier):
         for p, k in enumerate(argk):
             for lab, nd in leaves(k):
                 out.append(build(o, {p: (lab, nd)}))
+    # depth 1, binary operators: every pair of leaves (integral-valued float literals next to integer
+    # literals / integer symbols: the literal's TYPE matters in C: 7 / 3 is not 7.0 / 3)
+    for o, (kind, argk, ctor) in ops.items():
+        if len(argk) == 2 and argk[0] == argk[1]:
+            for l0 in leaves(argk[0]):
+                for l1 in leaves(argk[1]):
+                    out.append(build(o, {0: l0, 1: l1}))
+    # depth 2 with integral-valued float literals in every real slot of the child and integer literals beside it
+    fl, il = leaves("f")[6], leaves("f")[5]
+    for o, (kind, argk, ctor) in ops.items():
+        for p, k in enumerate(argk):
+            for c, (ckind, cargk, cctor) in ops.items():
+                if ckind != k or "f" not in cargk:
+                    continue
+                clab, cnode, _ = build(c, {q: fl for q, kk in enumerate(cargk) if kk == "f"})
+                fill = {q: il for q, kk in enumerate(argk) if kk == "f" and q != p}
+                fill[p] = (clab, cnode)
+                out.append(build(o, fill))
     # depth 2: every (parent, position, child operator)
     for o, (kind, argk, ctor) in ops.items():
         for p, k in enumerate(argk):
@@ -184,6 +202,8 @@ class ZEnv:
         self.i = {}
         self.T = z3.Function("T", z3.IntSort(), F16)
         self.ufs = {}
+        self.lang = "C"
+        self.assume = []
 
     def fvar(self, n):
         if n not in self.f:
@@ -230,9 +250,17 @@ def as_bool(v):
     return z != 0
 
 
-def arith(op, a, b):
+def arith(op, a, b, env=None):
     if a[0] == "i" and b[0] == "i" and op in "+-*":
         return ("i", {"+": a[1] + b[1], "-": a[1] - b[1], "*": a[1] * b[1]}[op])
+    if a[0] == "i" and b[0] == "i" and op == "/" and (env is None or env.lang == "C"):
+        # C: both operands of integer type -> integer division truncating toward zero (6.5.5); b == 0 is undefined
+        x, y = a[1], b[1]
+        if env is not None:
+            env.assume.append(y != 0)
+        ax, ay = z3.If(x >= 0, x, -x), z3.If(y >= 0, y, -y)
+        q = ax / ay
+        return ("i", z3.If((x < 0) != (y < 0), -q, q))
     x, y = as_fp(a), as_fp(b)
     return ("f", {"+": z3.fpAdd, "-": z3.fpSub, "*": z3.fpMul, "/": z3.fpDiv}[op](RM, x, y))
 
@@ -272,7 +300,7 @@ def z3_of_lnodes(env: ZEnv, n):
     if isinstance(n, ln.Not):
         return ("b", z3.Not(as_bool(z3_of_lnodes(env, n.arg))))
     if isinstance(n, (ln.Add, ln.Sub, ln.Mul, ln.Div)):
-        return arith(n.op, z3_of_lnodes(env, n.lhs), z3_of_lnodes(env, n.rhs))
+        return arith(n.op, z3_of_lnodes(env, n.lhs), z3_of_lnodes(env, n.rhs), env)
     if isinstance(n, (ln.LT, ln.LE, ln.GT, ln.GE, ln.EQ, ln.NE)):
         return compare(n.op, z3_of_lnodes(env, n.lhs), z3_of_lnodes(env, n.rhs))
     if isinstance(n, ln.And):
@@ -283,11 +311,13 @@ def z3_of_lnodes(env: ZEnv, n):
         # documented meaning: operands combined left to right
         acc = z3_of_lnodes(env, n.args[0])
         for a in n.args[1:]:
-            acc = arith(n.op, acc, z3_of_lnodes(env, a))
+            acc = arith(n.op, acc, z3_of_lnodes(env, a), env)
         return acc
     if isinstance(n, ln.Conditional):
         c = as_bool(z3_of_lnodes(env, n.condition))
         t, f = z3_of_lnodes(env, n.true), z3_of_lnodes(env, n.false)
+        if t[0] == "i" and f[0] == "i":
+            return ("i", z3.If(c, t[1], f[1]))
         return ("f", z3.If(c, as_fp(t), as_fp(f)))
     if isinstance(n, ln.MathFunction):
         return fun(env, {"power": "power"}.get(n.function, n.function), [z3_of_lnodes(env, a) for a in n.args])
@@ -320,7 +350,7 @@ def z3_of_ir(env: ZEnv, e):
         op = e[1]
         a, b = z3_of_ir(env, e[2]), z3_of_ir(env, e[3])
         if op in "+-*/":
-            return arith(op, a, b)
+            return arith(op, a, b, env)
         if op in ("<", "<=", ">", ">=", "==", "!="):
             return compare(op, a, b)
         if op == "&&":
@@ -328,7 +358,10 @@ def z3_of_ir(env: ZEnv, e):
         if op == "||":
             return ("b", z3.Or(as_bool(a), as_bool(b)))
     if k == "cond":
-        return ("f", z3.If(as_bool(z3_of_ir(env, e[1])), as_fp(z3_of_ir(env, e[2])), as_fp(z3_of_ir(env, e[3]))))
+        t, f = z3_of_ir(env, e[2]), z3_of_ir(env, e[3])
+        if t[0] == "i" and f[0] == "i":  # C: both branches of integer type -> the conditional has integer type
+            return ("i", z3.If(as_bool(z3_of_ir(env, e[1])), t[1], f[1]))
+        return ("f", z3.If(as_bool(z3_of_ir(env, e[1])), as_fp(t), as_fp(f)))
     if k == "call":
         return fun(env, e[1], [z3_of_ir(env, a) for a in e[2]])
     raise KsymError(f"ir {k}")
@@ -359,10 +392,12 @@ def parse_py_expr(text):
     return pyfront._Conv(m).expr(node)
 
 
-def decide_equal(v1, v2):
+def decide_equal(v1, v2, assume=()):
     """z3: exists leaves with different non-NaN values?  returns (verdict, model text)."""
     s = z3.Solver()
     s.set("timeout", 8000)
+    for c in assume:
+        s.add(c)
     if v1[0] == "b" or v2[0] == "b":
         s.add(as_bool(v1) != as_bool(v2))
     elif v1[0] == "i" and v2[0] == "i":
@@ -409,9 +444,10 @@ def check_trees(chk, tier):
     t0 = time.time()
     for label, tree, kind in trees:
         n += 1
-        env = ZEnv()
-        ref = z3_of_lnodes(env, tree)
         for lang, fmt, parse in (("C", cf, lambda t: parse_c_expr(t, kind)), ("numba", nf, parse_py_expr)):
+            env = ZEnv()
+            env.lang = "C" if lang == "C" else "py"
+            ref = z3_of_lnodes(env, tree)
             try:
                 text = fmt(tree)
             except Exception as e:
@@ -434,13 +470,17 @@ def check_trees(chk, tier):
                 else:
                     chk.inconc(f"{lang} text {text!r} of {label}: front-end cannot parse ({e})")
                 continue
-            r, mdl = decide_equal(ref, got)
+            r, mdl = decide_equal(ref, got, env.assume)
             chk.q("Q-fp16", r)
             if r == "sat":
                 key = f"fmt:{lang}:meaning:{_shape(label)}"
                 if key not in seen_v:
                     seen_v.add(key)
-                    chk.violation(key, f"{lang} text {text!r} does not mean the tree {label}: differs at {mdl}", _replay_src(label, lang, text, kind))
+                    conf = confirm_c_meaning(tree, text, kind) if lang == "C" else confirm_py_meaning(tree, text)
+                    if conf:
+                        chk.violation(key, f"{lang} text {text!r} does not mean the tree {label}: z3 witness {mdl}; replay: {conf}", _replay_src(label, lang, text, kind))
+                    else:
+                        chk.inconc(f"{lang} text {text!r} of {label}: z3 (Float16) says the meanings differ at {mdl}; not reproduced in double precision on the real toolchain")
             elif not r.startswith("unsat"):
                 chk.inconc(f"{lang} {label}: solver {r}")
         chk.cases.append(f"tree:{label}")
@@ -457,6 +497,127 @@ def check_trees(chk, tier):
         chk.twins_ok += 1
     else:
         chk.harness_error("formatter twin (dropped parentheses) not detected")
+
+
+def eval_lnodes(n, val):
+    """Concrete (double precision) meaning of an LNodes expression; val: dict a,b,c,i,j,T."""
+    import math
+
+    ln = L()
+    ev = lambda x: eval_lnodes(x, val)
+    if isinstance(n, ln.LiteralFloat):
+        return float(n.value)
+    if isinstance(n, ln.LiteralInt):
+        return int(n.value)
+    if isinstance(n, ln.Symbol):
+        return val[n.name]
+    if isinstance(n, ln.ArrayAccess):
+        return val["T"][ev(n.indices[0]) % len(val["T"])]
+    if isinstance(n, ln.Neg):
+        return -ev(n.arg)
+    if isinstance(n, ln.Not):
+        return not ev(n.arg)
+    if isinstance(n, (ln.Add, ln.Sub, ln.Mul, ln.Div)):
+        x, y = ev(n.lhs), ev(n.rhs)
+        if n.op == "/":
+            if isinstance(x, int) and isinstance(y, int) and not isinstance(x, bool) and not val.get("_py"):
+                return int(x / y) if y else float("nan")
+            return x / y if y else float("nan")
+        return {"+": x + y, "-": x - y, "*": x * y}[n.op]
+    if isinstance(n, (ln.LT, ln.LE, ln.GT, ln.GE, ln.EQ, ln.NE)):
+        x, y = ev(n.lhs), ev(n.rhs)
+        return {"<": x < y, "<=": x <= y, ">": x > y, ">=": x >= y, "==": x == y, "!=": x != y}[n.op]
+    if isinstance(n, ln.And):
+        return bool(ev(n.lhs)) and bool(ev(n.rhs))
+    if isinstance(n, ln.Or):
+        return bool(ev(n.lhs)) or bool(ev(n.rhs))
+    if isinstance(n, (ln.Sum, ln.Product)):
+        acc = ev(n.args[0])
+        for a in n.args[1:]:
+            acc = acc + ev(a) if n.op == "+" else acc * ev(a)
+        return acc
+    if isinstance(n, ln.Conditional):
+        return ev(n.true) if ev(n.condition) else ev(n.false)
+    if isinstance(n, ln.MathFunction):
+        xs = [float(ev(a)) for a in n.args]
+        try:
+            if n.function == "sqrt":
+                return math.sqrt(xs[0]) if xs[0] >= 0 else float("nan")
+            if n.function == "power":
+                r = math.pow(xs[0], xs[1])
+                return r
+        except (ValueError, OverflowError, ZeroDivisionError):
+            return float("nan")
+    raise KsymError(f"eval {type(n).__name__}")
+
+
+def confirm_c_meaning(tree, text, kind, tries=40):
+    """Replay of a z3 `sat` on the real toolchain: the emitted C text is compiled with gcc and
+    evaluated in double precision at concrete leaf values; the LNodes tree is evaluated by its
+    documented meaning.  Returns a description of a disagreeing point, or None."""
+    import ctypes
+    import hashlib
+    import random
+
+    d = Path("/verif/.work/fmt")
+    d.mkdir(parents=True, exist_ok=True)
+    h = hashlib.sha1(text.encode()).hexdigest()[:12]
+    src = ("#include <math.h>\n#include <stdbool.h>\n"
+           f"double k(double a, double b, double c, double* T, int i, int j) {{ return (double)({text}); }}\n")
+    cf, so = d / f"m{h}.c", d / f"m{h}.so"
+    cf.write_text(src)
+    r = subprocess.run(["gcc", "-std=c17", "-O0", "-fPIC", "-shared", str(cf), "-o", str(so), "-lm"], capture_output=True, text=True)
+    if r.returncode:
+        return None
+    lib = ctypes.CDLL(str(so))
+    lib.k.restype = ctypes.c_double
+    lib.k.argtypes = [ctypes.c_double] * 3 + [ctypes.POINTER(ctypes.c_double), ctypes.c_int, ctypes.c_int]
+    rng = random.Random(7)
+    out = None
+    for t in range(tries):
+        val = {"a": rng.choice([0.3, 1.7, -2.2, 5.1, 0.6]) + t * 0.013, "b": rng.choice([1.1, -0.7, 3.3, 2.6]) - t * 0.007, "c": rng.choice([0.9, -1.3, 4.2]) + t * 0.003,
+               "i": rng.randrange(0, 4), "j": rng.randrange(0, 4), "T": [1.25, -0.5, 3.75, 0.625, 2.5, -1.75, 0.2, 4.4, 1.9, -3.1, 0.7, 2.2, 5.5, -0.9, 1.3, 0.45]}
+        try:
+            want = eval_lnodes(tree, val)
+        except (ZeroDivisionError, OverflowError):
+            continue
+        want = float(want)
+        arr = (ctypes.c_double * len(val["T"]))(*val["T"])
+        got = lib.k(val["a"], val["b"], val["c"], arr, val["i"], val["j"])
+        if want != want or got != got or abs(want) == float("inf") or abs(got) == float("inf"):
+            continue
+        if abs(got - want) > 1e-9 * max(abs(got), abs(want), 1e-300):
+            out = f"a={val['a']}, b={val['b']}, c={val['c']}, i={val['i']}, j={val['j']}: gcc-built text gives {got!r}, the tree means {want!r}"
+            break
+    for f in (cf, so):
+        try:
+            f.unlink()
+        except OSError:
+            pass
+    return out
+
+
+def confirm_py_meaning(tree, text, tries=40):
+    import math
+    import random
+
+    import numpy as np
+
+    rng = random.Random(7)
+    for t in range(tries):
+        val = {"a": rng.choice([0.3, 1.7, -2.2, 5.1, 0.6]) + t * 0.013, "b": rng.choice([1.1, -0.7, 3.3, 2.6]) - t * 0.007, "c": rng.choice([0.9, -1.3, 4.2]) + t * 0.003,
+               "i": rng.randrange(0, 4), "j": rng.randrange(0, 4), "T": [1.25, -0.5, 3.75, 0.625, 2.5, -1.75, 0.2, 4.4, 1.9, -3.1, 0.7, 2.2, 5.5, -0.9, 1.3, 0.45]}
+        try:
+            want = float(eval_lnodes(tree, dict(val, _py=True)))
+            with np.errstate(all="ignore"):
+                got = float(eval(text, {"np": np, "math": math, **val}))
+        except Exception:
+            continue
+        if want != want or got != got or abs(want) == float("inf") or abs(got) == float("inf"):
+            continue
+        if abs(got - want) > 1e-9 * max(abs(got), abs(want), 1e-300):
+            return f"a={val['a']}, b={val['b']}, c={val['c']}, i={val['i']}, j={val['j']}: Python evaluation of the text gives {got!r}, the tree means {want!r}"
+    return None
 
 
 def _children(n):
@@ -525,10 +686,12 @@ def replay_tree(label, lang):
                 except Exception as e:
                     print("does not parse back:", e, "\nREPRODUCED")
                     return 1
-                r, mdl = decide_equal(z3_of_lnodes(env, tree), got)
+                r, mdl = decide_equal(z3_of_lnodes(env, tree), got, env.assume)
                 print("z3:", r, mdl)
-                print("REPRODUCED" if r == "sat" else "not reproduced")
-                return 1 if r == "sat" else 0
+                conf = (confirm_c_meaning(tree, text, kind) if lang == "C" else confirm_py_meaning(tree, text)) if r == "sat" else None
+                print("real toolchain:", conf)
+                print("REPRODUCED" if conf else "not reproduced")
+                return 1 if conf else 0
     print("tree not found")
     return 0
 
